@@ -283,12 +283,25 @@ def trace_hashes(version):
     return _TRACE_HASHES[name]
 
 
-def gen_trace_payload(rng, version):
+def trace_family(rng, version):
+    """low five digits shared by several lines of the string file (a 'family'), preferred over singletons: partial
+    matches inside such a family depend on the order in which the lines are searched"""
+    import collections
+    hashes = trace_hashes(version)
+    if not hashes:
+        return 0
+    cnt = collections.Counter(h % 100000 for h in hashes)
+    multi = sorted(k for k, v in cnt.items() if v > 1)
+    return rng.choice(multi) if multi and rng.random() < 0.8 else rng.choice(hashes) % 100000
+
+
+def gen_trace_payload(rng, version, fam=None):
     import struct
     hashes = trace_hashes(version)
     entries = b""
-    fam = rng.choice(hashes) % 100000 if hashes else 0
-    family = [h for h in hashes if h % 100000 == fam]
+    if fam is None:
+        fam = trace_family(rng, version)
+    family = [h for h in hashes if h % 100000 == fam] or hashes[:1]
     for _ in range(rng.randint(1, 6)):
         c = rng.random()
         if hashes and c < 0.35:
